@@ -8,6 +8,8 @@ func init() {
 		Assume:  []string{"delivery of the frames before the offending one is C04's (undecided) history part"},
 		Run: func(c *Ctx) {
 			readerNextFrameRules(c, "C05")
+			// the framing rules themselves: NextFrame delegates them to ws.CheckHeader
+			c03CheckHeader(c)
 		},
 	})
 }
